@@ -12,7 +12,9 @@ RULE = ('grammar-directed strings of the documented univariate language: 1-12 si
         '17-significant-digit and 25-digit decimals, zeros), exponents with leading zeros, variable letter from ASCII letters '
         'and the non-ASCII alphabetic table of Base/Str.v, 0-3 space/tab/newline/U+00A0/U+2003 at every token position '
         '(and, in class innerspace, inside numbers), optional leading "+"; commands parse and eval (8 points); '
-        'plus a malformed stream (random edits of grammatical strings) and one Unicode-table sanity case. '
+        'plus a malformed stream (random edits of grammatical strings, including inserted 310-digit runs), an overflow class '
+        '(numerals at and beyond the f64 range, sums of like powers that overflow in one order and not in another) '
+        'and one Unicode-table sanity case. '
         'distinct = distinct case line; non-trivial = grammatical string with >= 2 terms')
 TRUSTED = ['extraction of the float instance (ExtrOcamlBasic, ExtrOCamlFloats, ExtrOCamlInt63) and ocaml/c01.ml',
            'Rust harness harness/src/bin/c01.rs', 'exact-rational oracle tools/props/c01.py',
@@ -125,7 +127,7 @@ def grammatical(rng, nterms=None):
     return s, {'terms': terms, 'var': ord(var), 'kind': 'grammar'}, cls
 
 
-MUT_ALPHABET = list('0123456789..^^++--xyzeE*/()# \t') + ['\u00b2', '\u00bd', '\u0663', '\u00a0', '\u2003', '\u03c0', '@', 'inf', 'nan', '1e5', '^-', '--', '++', '-+']
+MUT_ALPHABET = list('0123456789..^^++--xyzeE*/()# \t') + ['\u00b2', '\u00bd', '\u0663', '\u00a0', '\u2003', '\u03c0', '@', 'inf', 'nan', '1e5', '^-', '--', '++', '-+', '9' * 310, '1' + '0' * 309]
 
 
 def mutate(rng, s):
@@ -184,6 +186,26 @@ def gen(rng, tier):
               'x+inf', 'inf', 'nan', '1e5', 'NaN', 'x^+2', 'x^-2', '3.x', '.x', '3..x', '1.2.3', '--x', '+-x', '-+x',
               '\u00b2x', 'x\u00b2', '3\u0663x', '\u03c0\u03c0', 'e', '2e', '2e3', 'E^2']:
         yield Case('parse ' + cps(s), 'malformed-fixed', {'kind': 'malformed'})
+    # 59b028d: numerals beyond the range of f64 and overflowing sums are errors, never infinite coefficients
+    big = '9' * 308
+    fmax = '17976931348623157' + '0' * 292                    # f64::MAX
+    half = str(2 ** 1024 - 2 ** 970)                           # the tie between f64::MAX and 2^1024: rounds to infinity
+    over = [
+        ('9' * 400 + 'x', [[0, '9' * 400, 1, None]]), ('9' * 400, [[0, '9' * 400, 0, None]]),
+        ('-' + '9' * 400 + 'x^2', [[1, '9' * 400, 1, '2']]), ('x+' + '1' + '0' * 309, [[0, None, 1, None], [0, '1' + '0' * 309, 0, None]]),
+        (big + 'x+' + big + 'x', [[0, big, 1, None], [0, big, 1, None]]),
+        ('-' + big + 'x-' + big + 'x', [[1, big, 1, None], [1, big, 1, None]]),
+        (big + 'x-' + big + 'x+' + big + 'x', [[0, big, 1, None], [1, big, 1, None], [0, big, 1, None]]),
+        (big + 'x+' + big + 'x-' + big + 'x', [[0, big, 1, None], [0, big, 1, None], [1, big, 1, None]]),
+        (big + 'x+' + big + 'x^2', [[0, big, 1, None], [0, big, 1, '2']]),
+        (fmax + 'x', [[0, fmax, 1, None]]), (fmax + '.5', [[0, fmax + '.5', 0, None]]),
+        (half, [[0, half, 0, None]]), (str(2 ** 1024 - 2 ** 970 - 1), [[0, str(2 ** 1024 - 2 ** 970 - 1), 0, None]]),
+        (half + '.000x', [[0, half + '.000', 1, None]]),
+        (fmax + 'x+' + fmax[:-280] + 'x', [[0, fmax, 1, None], [0, fmax[:-280], 1, None]]),
+        ('1' + '0' * 308 + '.' + '0' * 50 + 'x', [[0, '1' + '0' * 308 + '.' + '0' * 50, 1, None]]),
+    ]
+    for s, terms in over:
+        yield Case('parse ' + cps(s), 'overflow', {'terms': terms, 'var': ord('x'), 'kind': 'overflow'})
     for _ in range(n_gram):
         s, meta, cls = grammatical(rng)
         yield Case('parse ' + cps(s), cls, meta)
@@ -211,7 +233,7 @@ def describe(case):
     m = case.meta or {}
     d = {'op': case.line.split()[0], 'text': text_of(case) if case.line.split()[0] != 'classes' else '(table)',
          'kind': m.get('kind')}
-    if m.get('kind') == 'grammar':
+    if m.get('kind') in ('grammar', 'overflow'):
         d['terms'] = m['terms']
         d['var'] = chr(m['var'])
     return d
@@ -219,7 +241,7 @@ def describe(case):
 
 def nontrivial(case, impl):
     m = case.meta or {}
-    return m.get('kind') == 'grammar' and len(m['terms']) >= 2
+    return m.get('kind') in ('grammar', 'overflow') and len(m['terms']) >= 2
 
 
 def dec_value(c):
@@ -259,9 +281,19 @@ def judge(case, impl):
             if chr(cp) in '0123456789.^+-' and b[0] != '0':
                 return 'USane violated by Rust: %r is alphabetic' % chr(cp)
         return None
-    if m.get('kind') != 'grammar':
+    if m.get('kind') not in ('grammar', 'overflow'):
         if not (impl.startswith('ok') or impl.startswith('err ')):
             return 'neither a value nor an error: ' + impl[:80]
+        if cmd == 'parse' and impl.startswith('ok'):
+            for h in impl.split()[3:]:
+                if h == 'nan' or math.isinf(hex2f(h)):
+                    return 'accepted text has a non-finite coefficient'
+        return None
+    if m.get('kind') == 'overflow' and impl.startswith('err '):
+        # beyond the range of f64: an error is the documented answer; if accepted, the values must be right (below)
+        terms = source_terms(m)
+        if all(abs(v) < Fraction(10) ** 307 for v, _ in terms) and sum(abs(v) for v, _ in terms) < Fraction(10) ** 307:
+            return 'string of the documented language within the range of f64 rejected: ' + impl[:80]
         return None
     # ---- grammatical string: must be accepted with the documented meaning
     if not impl.startswith('ok'):
